@@ -77,17 +77,30 @@ pub fn replay(args: &[String]) {
         if icon { def["claim_generator_info"][0]["icon"] = json!({"format": "image/jpeg", "identifier": "icon.jpg"}); }
         if v["claim_version"].as_u64() == Some(1) { def["claim_version"] = json!(1); }
         if v["hash_alg"] != "sha256" { def["hash_alg"] = v["hash_alg"].clone(); }
-        let overlay = if v["compressed"].as_bool().unwrap() { json!({"core": {"prefer_compress_manifests": true}}) } else { Value::Null };
+        let xtra = v["extra"].as_str().unwrap_or("none").to_string();
+        let mut overlay = if v["compressed"].as_bool().unwrap() { json!({"core": {"prefer_compress_manifests": true}}) } else { json!({}) };
+        if xtra == "thumb" { overlay["builder"] = json!({"thumbnail": {"enabled": true}}); }
+        if xtra == "user_thumb" { def["thumbnail"] = json!({"format": "image/jpeg", "identifier": "thumb.jpg"}); }
         events.lock().unwrap().clear();
         let ing = v["ingredient"].as_str().unwrap_or("none").to_string();
         let r = catch(std::panic::AssertUnwindSafe(|| -> Result<Value, c2pa::Error> {
             let mut b = Builder::from_context(ctx(&overlay)).with_definition(def.to_string().as_str())?;
+            let ing = if ing == "none" && xtra.starts_with("ing_") { "unsigned".to_string() } else { ing.clone() };
+            if xtra == "user_thumb" { b.add_resource("thumb.jpg", Cursor::new(fixture("thumbnail.jpg")))?; }
             if ing != "none" {
                 // a version-1 claim can only carry ingredients whose manifests are version 1 as well
                 let mut idef = simple_manifest_json("c03 ingredient", "image/png");
                 if v["claim_version"].as_u64() == Some(1) { idef["claim_version"] = json!(1); }
                 let idata = if ing == "signed" { sign_bytes(ctx(&Value::Null), &idef, "image/png", &fixture("libpng-test.png"), "es256")? } else { fixture("libpng-test.png") };
-                b.add_ingredient_from_stream(json!({"title": "ing-title", "relationship": "componentOf"}).to_string(), "image/png", &mut Cursor::new(idata))?;
+                // a signed ingredient whose manifest uses another hash algorithm than the new claim
+                if xtra == "ing_other_alg" { idef["hash_alg"] = json!(if v["hash_alg"] == "sha512" { "sha384" } else { "sha512" }); }
+                let idata = if ing == "signed" && xtra == "ing_other_alg" { sign_bytes(ctx(&Value::Null), &idef, "image/png", &fixture("libpng-test.png"), "es256")? } else { idata };
+                let i = b.add_ingredient_from_stream(json!({"title": "ing-title", "relationship": "componentOf"}).to_string(), "image/png", &mut Cursor::new(idata))?;
+                if xtra == "ing_thumb" { i.set_thumbnail("image/jpeg", fixture("thumbnail.jpg"))?; }
+                if xtra == "ing_data" {
+                    let r = i.resources_mut().add_with("prompt", "text/plain", b"a prompt text".to_vec())?;
+                    i.set_data_ref(r)?;
+                }
             }
             if icon { b.add_resource("icon.jpg", Cursor::new(fixture("thumbnail.jpg")))?; }
             if mode == "sidecar" || mode == "remote" { b.set_no_embed(true); }
@@ -134,12 +147,15 @@ pub fn replay(args: &[String]) {
                     let extra: Vec<String> = m.assertions().iter().map(|a| a.label().split("__").next().unwrap_or("").to_string()).filter(|l| l.starts_with("org.") && !supplied.iter().any(|(s, _)| s == l)).collect();
                     if !extra.is_empty() { problems.push(format!("unexpected assertions {extra:?}")); }
                     let want_ing = if ing == "none" { 0 } else { 1 };
+                    if xtra == "user_thumb" && m.thumbnail_ref().is_none() { problems.push("thumbnail missing".to_string()); }
                     if m.ingredients().len() != want_ing { problems.push(format!("{} ingredients, expected {want_ing}", m.ingredients().len())); }
                     else if want_ing == 1 {
                         let i0 = &m.ingredients()[0];
                         if i0.title() != Some("ing-title") { problems.push(format!("ingredient title {:?}", i0.title())); }
                         if format!("{:?}", i0.relationship()).to_lowercase() != "componentof" { problems.push(format!("ingredient relationship {:?}", i0.relationship())); }
                         if (ing == "signed") != i0.active_manifest().is_some() { problems.push("ingredient manifest presence wrong".to_string()); }
+                        if xtra == "ing_thumb" && i0.thumbnail_ref().is_none() { problems.push("ingredient thumbnail missing".to_string()); }
+                        if xtra == "ing_data" && i0.data_ref().is_none() { problems.push("ingredient data missing".to_string()); }
                     }
                 }
             }
